@@ -17,6 +17,7 @@ JPARSER = "utype/specs/json_schema/parser.py"
 JCONST = "utype/specs/json_schema/constant.py"
 ENC = "utype/utils/encode.py"
 EXC = "utype/utils/exceptions.py"
+COMPAT = "utype/utils/compat.py"
 FUNCTIONAL = "utype/utils/functional.py"
 
 
@@ -1214,8 +1215,9 @@ VARIANTS = [
       (GEN, """                # will count options.ignore_required in
                 required.append(name)
             elif self.output:
-                if not field.no_default:
+                if not field.no_default and not (field.defer_default or options.defer_default):
                     # if field has default, the value is required in the output data
+                    # (a deferred default is not applied until the attribute is read)
                     required.append(name)
 
         data.update(properties=properties)
@@ -1223,8 +1225,9 @@ VARIANTS = [
             data.update(required=required)""", """                # will count options.ignore_required in
                 required_names.append(name)
             elif self.output:
-                if not field.no_default:
+                if not field.no_default and not (field.defer_default or options.defer_default):
                     # if field has default, the value is required in the output data
+                    # (a deferred default is not applied until the attribute is read)
                     required_names.append(name)
 
         data.update(properties=properties)
@@ -1434,6 +1437,72 @@ VARIANTS = [
         return t(data)""")),
     G("benign Schema.copy: explicit dict() of the storage",
       (SCHEMA, "        obj.__dict__ = dict(self.__dict__)", "        obj.__dict__ = {**self.__dict__}")),
+    B("C04 revert F36: contains iterates the input outside a try", "C04", "R04h",
+      (RULE, """        try:
+            items = list(value)
+        except TypeError as e:
+            # a rule without origin can receive anything: a value that cannot be iterated contains nothing
+            context.handle_error(
+                exc.ConstraintError(
+                    origin_exc=e, constraint="contains", constraint_value=cls.contains
+                )
+            )
+            return value
+        for i, item in enumerate(items):""", """        for i, item in enumerate(value):""")),
+    B("C07 revert F37: deleter tests the key name, pops the attribute name", "C07", "R07i",
+      (SCHEMA, """        if field.attname in self.__dict__:
+            self.__dict__.pop(field.attname)
+
+    def __delitem__""", """        if field.name in self.__dict__:
+            self.__dict__.pop(field.attname)
+
+    def __delitem__""")),
+    B("C07 pop leaves the attribute behind", "C07", "R07i",
+      (SCHEMA, """        # keep the attribute view in step with the key view
+        self.__dict__.pop(field.attname, None)
+        return value""", """        return value""")),
+    B("C13 revert F39: dependentRequired holds the set", "C13", "R13c",
+      (GEN, "dependent_required[name] = sorted(field.dependencies)", "dependent_required[name] = field.dependencies")),
+    B("C11 revert F32: output value converted on the caller's context", "C11", "R11c",
+      (FIELD, """            with context.enter(self.name) as new_context:
+                # errors recorded by the output type's own parsing stay in the child context
+                return new_context.transformer(value, type)  # noqa""", """            return context.transformer(value, type)  # noqa""")),
+    B("C10 max_errors normalised unconditionally", "C10", "R10f",
+      (OPT, """                )
+                max_errors = None
+""", """                )
+            max_errors = None
+""")),
+    B("C09 negation memoised on the class", "C09", "R09f",
+      (RULE, """        return cls.combine("~", cls)
+
+    # def __getitem__""", """        negated = getattr(cls, "__negated__", None)
+        if negated is None:
+            negated = cls.__negated__ = cls.combine("~", cls)
+        return negated
+
+    # def __getitem__""")),
+    B("C02 lax mode leaks to later constraints", "C02", "R02e",
+      (RULE, """        for key, val in constraints.items():
+            mode = constraint_mode.get(key)
+            if mode:""", """        mode = None
+        for key, val in constraints.items():
+            if key in constraint_mode:
+                mode = constraint_mode[key]
+            if mode:""")),
+    B("C17 evaluate_forward_ref aliases localns to globalns", "C17", "R17g",
+      (COMPAT, """    def evaluate_forward_ref(ref: ForwardRef, globalns: Any, localns: Any):
+        return typing._eval_type(ref, globalns, localns)  # noqa""", """    def evaluate_forward_ref(ref: ForwardRef, globalns: Any, localns: Any):
+        if localns is None:
+            localns = globalns
+        return typing._eval_type(ref, globalns, localns)  # noqa""")),
+    B("C18 rule options applied through a chained route-less context", "C18", "R18g",
+      (RULE, """        context = context or cls.context_cls(options=cls.__options__)
+        options = context.options""", """        if context is None:
+            context = cls.context_cls(options=cls.__options__)
+        elif cls.__options__:
+            context = (context.options & cls.__options__).make_context(context.cls, context=context)
+        options = context.options""")),
     G("benign comment and blank lines",
       (RULE, "        context.raise_error()  # raise error if collected\n        return value", "        # flush\n\n        context.raise_error()\n        return value")),
 ]
